@@ -504,6 +504,53 @@ pub struct Incarnation {
     pub server_uid: String,
 }
 
+/// The tako comm object owns the event processor, which owns `Senders`, which owns a `ServerRef`
+/// to the same comm object: a reference cycle that would keep the whole server of every run
+/// alive. It is broken when the incarnation goes away.
+struct NoEvents;
+
+impl tako::events::EventProcessor for NoEvents {
+    fn on_task_finished(&mut self, _task_id: tako::TaskId) {}
+    fn on_task_started(
+        &mut self,
+        _task_id: tako::TaskId,
+        _instance_id: tako::InstanceId,
+        _worker_ids: &[WorkerId],
+        _rv_id: tako::ResourceVariantId,
+        _context: tako::task::SerializedTaskContext,
+    ) {
+    }
+    fn on_task_error(
+        &mut self,
+        _task_id: tako::TaskId,
+        _consumers_id: Vec<tako::TaskId>,
+        _error_info: tako::internal::messages::common::TaskFailInfo,
+    ) -> Vec<tako::TaskId> {
+        Vec::new()
+    }
+    fn on_worker_new(
+        &mut self,
+        _worker_id: WorkerId,
+        _configuration: &tako::worker::WorkerConfiguration,
+    ) {
+    }
+    fn on_worker_lost(
+        &mut self,
+        _worker_id: WorkerId,
+        _running_tasks: &[tako::TaskId],
+        _reason: LostWorkerReason,
+    ) {
+    }
+    fn on_worker_overview(&mut self, _overview: Box<tako::worker::WorkerOverview>) {}
+    fn on_task_notify(&mut self, _task_id: tako::TaskId, _worker_id: WorkerId, _message: Box<[u8]>) {}
+}
+
+impl Drop for Incarnation {
+    fn drop(&mut self) {
+        self.server_ref.set_client_events(Box::new(NoEvents));
+    }
+}
+
 pub struct World {
     pub cfg: ClusterConfig,
     pub rt: tokio::runtime::Runtime,
